@@ -3,6 +3,6 @@ CONSTANTS
   MaxLen = 3
   GuardMode = "ascode"
   NormAfterGuard <- NoApis
-  Classes <- CoreClasses
+  Classes <- AllClasses
 CONSTRAINT Emit
 CHECK_DEADLOCK FALSE
